@@ -508,6 +508,8 @@ class JSFunction:
         self.params = params
         self.bytecode = bytecode
         self.closure_vars = closure_vars or {}
+        # Properties assigned by scripts (F.x = 1); `prototype` lives in _prototype
+        self._properties: Dict[str, JSValue] = {}
 
     def __repr__(self) -> str:
         return f"[Function: {self.name}]" if self.name else "[Function (anonymous)]"
